@@ -12,11 +12,11 @@ LEVEL_TEXT = ("bounded-exhaustive: all trigger sets up to n, all behaviours and 
 LEVEL_NOTE = "the reactor is never run (no I/O, no threads); the logging failure handler and Deferred/DeferredList are trusted"
 TECHNIQUE = "stateless exhaustive enumeration (mc.choice), removals deviation-bounded, lock-step list reference"
 RULE = ("for n <= N triggers: every phase assignment (before/during/after)^n x every behaviour per trigger {return None, raise, "
-        "return unfired Deferred, and for before-triggers also return an already-fired / already-failed Deferred, an unfired "
-        "DeferredList([d]), an unfired instance of a user subclass of Deferred} x every "
+        "return unfired Deferred, and for before-triggers also return an already-fired / already-failed Deferred} x every "
         "order and outcome (ok/failed) of firing the Deferreds returned by before-triggers [all enumerated completely]; "
         "combined with <= B removal/duplication decisions: remove trigger j before firing, from inside any running trigger "
         "(later, earlier-and-already-run before-trigger, or itself for before-triggers), or between two Deferred firings; "
+        "the unfired Deferred of a before-trigger is a DeferredList([d]) / an instance of a user subclass of Deferred; "
         "register trigger i as an identical duplicate (same callable, args, kwargs) of an earlier one; a running during/after "
         "trigger registers a new trigger for its own phase or a later phase; fire the event again while waiting. All triggers share one "
         "callable and differ by args or kwargs. non-trivial = distinct (phases, behaviours, removals, firing order) with a "
@@ -32,11 +32,11 @@ ASSUMPTIONS = [
     "nothing else runs on the reactor, so 'after every Deferred has fired' is checked as: no during/after trigger has run "
     "while a before-Deferred is unfired, and all of them have run by the time the last Deferred firing returns",
 ]
-MIN = {"quick": {"evaluations": 480000, "nontrivial": 480000, "outcomes": 17},
+MIN = {"quick": {"evaluations": 550000, "nontrivial": 550000, "outcomes": 18},
        "thorough": {"evaluations": 11800000, "nontrivial": 11800000, "outcomes": 18}}
 
 PHASES = ("before", "during", "after")
-KINDS = {"before": ("none", "raise", "defer", "fired", "failed", "dlist", "subdefer"), "during": ("none", "raise", "defer"),
+KINDS = {"before": ("none", "raise", "defer", "fired", "failed"), "during": ("none", "raise", "defer"),
          "after": ("none", "raise", "defer")}
 TIERS = {"quick": {1: 2, 2: 2, 3: 2, 4: 1}, "thorough": {1: 3, 2: 3, 3: 3, 4: 2, 5: 1}}
 DUP_SIG = "SystemEvent:removal-conflates-identical-duplicate-registrations"
@@ -243,6 +243,9 @@ class H:
             else:
                 r.token = i
                 r.kind = ch.pick(KINDS[ph], "kind-%d" % i, free=True)
+                if ph == "before" and r.kind == "defer":
+                    # (deviation) the unfired Deferred is an instance of a Deferred subclass
+                    r.kind = ("defer", "dlist", "subdefer")[ch.choose(3, "deferred-class-%d" % i)]
             if r.token % 2:
                 r.handle = reactor.addSystemEventTrigger(ph, "custom", self.trig, token=r.token)
             else:
